@@ -27,6 +27,9 @@ DOCS = {
     # not depend on what another container holds
     'shared-names': [('block', 'b1', [('loop', ['_a', '_b'], [[C('1'), C('2')]]), ('frame', 'f1', [('loop', ['_a', '_b'], [[C('3'), C('4')]])])]),
                      ('block', 'b2', [('loop', ['_a', '_b'], [[C('5'), C('6')]]), ('item', '_s', C('z'))])],
+    # code points at the edges of the permitted ranges, and a name that grows when normalised, in every kind of name
+    'edge-names': [('block', 'b\ufdf0', [('item', '_\ufdf0', C('1')), ('frame', '\ufdcff\U00010000', [('item', '_\u00df\u00df', C('2'))]),
+                                        ('loop', ['_x\ufffd', '_\ud7ff\ue000'], [[C('3'), T(('\ufdf0 k', C('4')))]])])],
     'three-blocks': [('block', 'b1', [('item', '_a', C('1'))]), ('block', 'b2', [('item', '_a', C('2'))]), ('block', 'b3', [('item', '_a', C('3'))])],
 }
 COMMENTED = ('frames', 'loop2x2')
